@@ -2,7 +2,7 @@
 import vlib
 from props import recfam, sysfam
 
-INV = ['C07_LinearMonotone', 'C07_StepsMonotone', 'C07_GraphMonotone', 'C07_CtlMonotone', 'C07_CtlRateMonotone']
+INV = ['C07_LinearMonotone', 'C07_StepsMonotone', 'C07_GraphMonotone', 'C07_CtlMonotone', 'C07_CtlRateMonotone', 'C07_ConcurrentMonotone']
 
 
 def check(run):
@@ -13,6 +13,8 @@ def check(run):
                        'curves', timeout=3000)
     ctl = run.drive('TestDriveC07Ctl', shards, lambda i: dict(VERIF_SEED=run.seed * 1000 + i, VERIF_N=run.pick(12, 400)), 'ctlsweep', timeout=3000)
     run.sample_from(ctl[0], 1)
+    # several fans (goroutines) evaluating one monotone graph at the same time while the temperatures rise
+    ctl += run.drive('TestDriveC07Conc', 4, lambda i: dict(VERIF_SEED=run.seed * 31 + i, VERIF_N=run.pick(25, 400)), 'conc', timeout=3000)
     run.validate('Rec_Curves', recfam.rec_cfg('Rec_Curves', INV + ['C06_Linear', 'C06_Steps', 'C06_Graph']), traces + ctl, 'rec', parallel=8, timeout=3000)
     # end to end (last clause of the property): System.tla = smoothing o curves o controller; exhaustive small instance,
     # then real pipelines driven by polls and cycles: a temperature rise alone never lowers the PWM a fan is given
